@@ -677,8 +677,32 @@ def check_constructor_config(rep, repo):
     stores = [e for e in wr.events if e.kind == "store" and e.target == ("attr", ("self",), "pre_distances")]
     loaded = [e for e in wr.events if e.kind == "call" and e.name and (e.name.startswith("opfython.stream.loader.") or e.name in ("load_csv", "load_txt"))]
     vals = {e.value for e in loaded}
-    oks = len(stores) == 1 and (stores[0].value in vals or stores[0].value[0] in ("sel", "call", "ret", "phi") or
-                                (stores[0].value[0] == "old" and stores[0].value[1] in vals))
+    CHANGING = {"abs", "absolute", "fabs", "round", "around", "rint", "floor", "ceil", "trunc", "clip", "sqrt", "square", "exp", "log",
+                "log1p", "negative", "sign", "maximum", "minimum", "nan_to_num", "tril", "triu", "transpose", "sort", "float32", "float16",
+                "int32", "int64", "intp"}
+
+    def changed(v, depth=0):
+        """a function that changes entries applied on the way from the loader to the field (np.abs, np.round, .T, a narrower dtype)"""
+        if depth > 8 or not isinstance(v, tuple) or not v:
+            return False
+        if v[0] in ("call", "alloc"):
+            f = v[1]
+            name = f[1] if isinstance(f, tuple) and f[0] == "mod" else (f if isinstance(f, str) else "")
+            if name.startswith("numpy.") and name.rpartition(".")[2] in CHANGING and any(
+                    u in vals for a0 in v[2] for u in subterms(a0)):
+                return True
+            if isinstance(f, tuple) and f[0] == "attr" and f[2] in ("round", "clip", "transpose", "astype") and any(u in vals for u in subterms(f[1])):
+                if f[2] != "astype" or (v[2] and v[2][0] not in (("mod", "numpy.float64"), ("builtin", "float"))):
+                    return True
+            return any(changed(a0, depth + 1) for a0 in v[2])
+        if v[0] == "attr" and v[2] == "T" and any(u in vals for u in subterms(v[1])):
+            return True
+        if v[0] in ("sel", "old"):
+            return any(changed(x, depth + 1) for x in v[1:] if isinstance(x, tuple))
+        return False
+    from ..ir import subterms
+    oks = len(stores) == 1 and (stores[0].value in vals or stores[0].value[0] in ("sel", "call", "ret", "phi", "alloc") or
+                                (stores[0].value[0] == "old" and stores[0].value[1] in vals)) and not changed(stores[0].value)
     rep.fn("INIT-store", fr, "_read_distances keeps the matrix it loaded", oks,
            f"stores to pre_distances: {[e.text()[:70] for e in stores]}")
 
